@@ -1,17 +1,17 @@
 ----------------------------- MODULE KValidityMC -----------------------------
 (* C49, exhaustive: every (port, asker, valid-from, expiry, time) of the bounded space is one initial
-   state.  Inv: the transcription (L2Rel) satisfies the property everywhere EXCEPT the observation class
-   of the known finding (KnownRadius), which is kept out as a constraint so that every other cell of the
-   matrix is still checked; InvAll (expected to be violated) shows that the model exhibits the defect. *)
+   state; Before = FALSE: the transcription of today's code (L2Rel) must satisfy the property on every
+   cell.  Before = TRUE (KValidityAll.cfg, expected to be VIOLATED): the transcription of the RADIUS port
+   as it was before fix 9e5c126 exhibits the repaired defect - a regression guard for the model itself. *)
 EXTENDS KValidity
-CONSTANTS T
+CONSTANTS T, Before
 VARIABLES o
 Times == 0..T
 Opt == {None} \cup Times
 Init == o \in {x \in [port : Ports, asker : Askers, vf : Opt, ex : Opt, t : Times, rel : BOOLEAN] :
-                  x.rel = L2Rel(x.port, x.asker, x.vf, x.ex, x.t)}
+                  x.rel = IF Before THEN L2RelBefore(x.port, x.asker, x.vf, x.ex, x.t)
+                                   ELSE L2Rel(x.port, x.asker, x.vf, x.ex, x.t)}
 Next == UNCHANGED o
 Spec == Init /\ [][Next]_o
-Inv == KnownRadius(o) \/ L1Ok(o)
-InvAll == L1Ok(o)
+Inv == L1Ok(o)
 =============================================================================
